@@ -1515,14 +1515,14 @@ fn main() {
     // 3. random full-ish trees of depth 3 (minimal parentheses) and deeper trees with redundant
     //    parentheses, random white space, literal spellings and environments; half of them over small
     //    operands (so that deep trees have values, not only overflow errors)
-    let n3 = if thorough { 1_000_000 } else { 4_000 };
+    let n3 = if thorough { 600_000 } else { 4_000 };
     for i in 0..n3 {
         let pool = if i % 2 == 0 { &at } else { &mild };
         let t = random_tree(&mut r, 3, pool, &sh, false);
         let text = render(&t, 0, r.below(2) as u8, &mut r);
         out.put(make_case(text, &env0, Some(&t)));
     }
-    let nd = if thorough { 800_000 } else { 6_000 };
+    let nd = if thorough { 500_000 } else { 6_000 };
     for i in 0..nd {
         let depth = 2 + r.below(5);
         let pool = if i % 3 == 0 { &at } else { &mild };
@@ -1586,7 +1586,7 @@ fn main() {
 
     // 5. token soup, mutated well-formed expressions, character soup
     let lex = all_lexemes();
-    let ns = if thorough { 400_000 } else { 5_000 };
+    let ns = if thorough { 300_000 } else { 5_000 };
     for _ in 0..ns {
         let n = 1 + r.below(9);
         let toks: Vec<String> = (0..n)
@@ -1674,7 +1674,7 @@ fn main() {
     for sc in systematic_scens() {
         emit_scen(&mut out, &sc);
     }
-    let nsh = if thorough { 300_000 } else { 6_000 };
+    let nsh = if thorough { 200_000 } else { 6_000 };
     for _ in 0..nsh {
         let sc = random_scen(&mut r, &sh);
         emit_scen(&mut out, &sc);
